@@ -312,8 +312,9 @@ DistrExec(x0, sender, m) ==
                             mm == MintTo(x.st.bank, to, coins)
                             ev == << Ev(<<"withdraw_delegator_reward">>, << <<<<"validator">>, m.v>>, <<<<"sender">>, sender>>,
                                                                             <<<<"amount">>, CoinStr(<<Bonded, amt>>)>> >>) >>
-                        IN IF ~mm.ok THEN Err(x)                      \* minting nothing is an error
-                           ELSE Ok(AddLog([x EXCEPT !.st.sk = SkClaim(x.st.sk, sender, m.v, t), !.st.bank = mm.bal],
+                            xm == [x EXCEPT !.rlog = Append(@, [slot |-> "bank", sender |-> "", payload |-> "sudo_mint"])]   \* the mint goes through the router
+                        IN IF ~mm.ok THEN Err(xm)                     \* minting nothing is an error
+                           ELSE Ok(AddLog([xm EXCEPT !.st.sk = SkClaim(x.st.sk, sender, m.v, t), !.st.bank = mm.bal],
                                           StakeEntry(<<[e |-> "sk_claim", d |-> sender, v |-> m.v, t |-> t],
                                                        [e |-> "mint", to |-> to, coins |-> coins]>>, ev)),
                                    ev, NoData)
@@ -360,6 +361,8 @@ Invoke(x, entry, c, sender, funds, rep) ==
     IF x.need THEN Err(x)
     ELSE IF c \notin DOMAIN x.st.reg THEN Err(x)                  \* contract_data fails
     ELSE IF x.st.reg[c].code \notin DOMAIN x.codes THEN Err(x)     \* contract_code fails
+    ELSE IF x.codes[x.st.reg[c].code].flavour = 4 /\ entry \in {"sudo", "reply", "migrate"}
+    THEN Err(x)                  \* flavour 4: a ContractWrapper with the mandatory entry points only - "not implemented"
     ELSE IF x.pos > Len(x.sc)
     THEN Err([x EXCEPT !.need = TRUE, !.info = [entry |-> entry, c |-> c, pos |-> x.pos]])
     ELSE LET b == x.sc[x.pos]
@@ -395,6 +398,7 @@ ExecSub(x, c, sm) ==
     LET from == Len(x.log) + 1
         r == RouterExec(x, c, sm.msg)
         sub == [t |-> "sub", owner |-> c, id |-> sm.id, on |-> sm.on, ok |-> r.ok, first |-> from,
+                noreply |-> (c \in DOMAIN x.st.reg /\ x.st.reg[c].code \in DOMAIN x.codes /\ x.codes[x.st.reg[c].code].flavour = 4),
                 eff |-> <<>>, dead |-> FALSE, killedAt |-> 0]
     IN IF r.x.need THEN Err(r.x)
        ELSE IF r.ok
@@ -508,11 +512,12 @@ RunTx(st, codes, block, call, sc) ==
                     LET q == WasmSudo(x0, call.c) IN
                     [x |-> q.x, ok |-> q.ok, resps |-> IF q.ok THEN <<[ev |-> q.ev, data |-> q.data]>> ELSE <<>>]
                [] call.k = "sudo_mint" ->
-                    LET q == MintTo(st.bank, call.to, call.coins) IN
-                    IF q.ok THEN [x |-> AddLog([x0 EXCEPT !.st.bank = q.bal],
+                    LET q == MintTo(st.bank, call.to, call.coins)
+                        x0m == [x0 EXCEPT !.rlog = <<[slot |-> "bank", sender |-> "", payload |-> "sudo_mint"]>>] IN
+                    IF q.ok THEN [x |-> AddLog([x0m EXCEPT !.st.bank = q.bal],
                                                SysEntry(<<[e |-> "mint", to |-> call.to, coins |-> call.coins]>>, "mint")),
                                   ok |-> TRUE, resps |-> <<[ev |-> <<>>, data |-> NoData]>>]
-                    ELSE [x |-> x0, ok |-> FALSE, resps |-> <<>>]
+                    ELSE [x |-> x0m, ok |-> FALSE, resps |-> <<>>]
                [] call.k = "sudo_slash" ->          \* App::sudo(SudoMsg::Staking(StakingSudo::Slash)); p above one is "over"
                     IF call.p = "over" \/ call.v \notin Validators \/ Mods["staking"] # "real"
                     THEN [x |-> x0, ok |-> FALSE, resps |-> <<>>]
@@ -589,7 +594,7 @@ ReplyDiscipline(r) ==
         r.log[j].t = "sub" =>
             LET isReplyNext == j < Len(r.log) /\ r.log[j+1].t = "inv" /\ r.log[j+1].entry = "reply"
                                /\ r.log[j+1].reply.is IN
-            IF Matches(r.log[j].ok, r.log[j].on)
+            IF Matches(r.log[j].ok, r.log[j].on) /\ ~r.log[j].noreply    \* (a dispatcher without a reply entry point fails instead)
             THEN /\ isReplyNext
                  /\ r.log[j+1].c = r.log[j].owner
                  /\ r.log[j+1].reply.id = r.log[j].id
